@@ -54,7 +54,8 @@ ReqClauses(e) ==
 
 RunEnded(e) == p.t >= 0 /\ p.started /\ (~e.started \/ e.runId # p.runId)
 
-ForceDue(f, e) == /\ p.t >= f[2] + 1 /\ p.started /\ ~p.paused /\ ~p.holding /\ p.runId = e.runId
+ForceDue(f, e) == /\ f[1] \notin SetOfSeq(e.forcedDead)      \* its block was ended after the force: it must not proceed any more
+                  /\ p.t >= f[2] + 1 /\ p.started /\ ~p.paused /\ ~p.holding /\ p.runId = e.runId
                   /\ e.started /\ ~e.paused /\ ~e.holding /\ f[3] = e.runId
 
 TickClauses(e) ==
@@ -133,7 +134,7 @@ Step ==
               /\ viols' = AddViols(viols, Failing(TickClauses(e)), l)
               /\ tickExec' = {} /\ p' = e
               /\ mustFinalize' = {} /\ mustUnpause' = FALSE /\ mustUnhold' = FALSE
-              /\ forced' = {f \in forced : f[1] \notin SetOfSeq(e.proceededEver) /\ f[3] = e.runId}
+              /\ forced' = {f \in forced : f[1] \notin SetOfSeq(e.proceededEver) /\ f[1] \notin SetOfSeq(e.forcedDead) /\ f[3] = e.runId}
               /\ newRun' = IF p.t >= 0 /\ e.runId # 0 /\ e.runId # p.runId /\ p.runId # 0 THEN TRUE
                            ELSE IF e.runId # 0 /\ (p.t < 0 \/ p.runId = 0) THEN TRUE
                            ELSE IF e.firstLine # "" \/ ~e.started THEN FALSE ELSE newRun
